@@ -1,3 +1,4 @@
+import LP.Props.GenTables
 import LP.Props.C13
 #print axioms LP.cmpUpper_sem
 #print axioms LP.cmpLower_sem
@@ -5,3 +6,7 @@ import LP.Props.C13
 #print axioms LP.FSet.intersectLoop_sem
 #print axioms LP.FSet.C13_intersect
 #print axioms LP.FSet.C13_contains_interval
+#print axioms LP.Gen.cwi_class
+#print axioms LP.Gen.table_eq
+#print axioms LP.Gen.intervalCmp_eq
+#print axioms LP.Gen.icmp_enum_order
